@@ -127,7 +127,8 @@ class IdentityCMap(CMapBase):
     def decode(self, code: bytes) -> Tuple[int, ...]:
         n = len(code) // 2
         if n:
-            return struct.unpack(">%dH" % n, code)
+            # A trailing odd byte is not a complete two-byte code: ignore it.
+            return struct.unpack(">%dH" % n, code[: n * 2])
         else:
             return ()
 
